@@ -27,6 +27,7 @@ from typing import Optional, Mapping, Union
 from .benchmark import Benchmark
 from .termination_check import TerminationCheck
 from ..output import UIError
+from ..ui import escape_braces
 from ..statistics import StatisticProperties, SampleCounter
 
 if TYPE_CHECKING:
@@ -328,7 +329,8 @@ class RunId(object):
                    + "{ind}The command line configured is: %s\n"
                    + "{ind}%s is not supported as key.\n"
                    + "{ind}Only benchmark, input, variable, cores, and warmup are supported.\n") % (
-                       self.benchmark.name, string, err)
+                       escape_braces(str(self.benchmark.name)), escape_braces(string),
+                       escape_braces(str(err)))
             raise UIError(msg, err)
 
     def cmdline(self):
@@ -416,7 +418,8 @@ class RunId(object):
         msg = ("The configuration of the benchmark %s contains an improper Python format string.\n"
                + "{ind}The command line configured is: %s\n"
                + "{ind}Error: %s\n") % (
-                   self.benchmark.name, cmdline, err)
+                   escape_braces(str(self.benchmark.name)), escape_braces(cmdline),
+                   escape_braces(str(err)))
 
         # figure out which format misses a conversion type
         without_conversion_type = re.findall(
@@ -424,8 +427,9 @@ class RunId(object):
         if without_conversion_type:
             msg += ("{ind}The following elements do not have conversion types: \"%s\""
                     + "{ind}This can be fixed by replacing for instance %s with %ss\n") % (
-                        '", "'.join(without_conversion_type),
-                        without_conversion_type[0], without_conversion_type[0])
+                        escape_braces('", "'.join(without_conversion_type)),
+                        escape_braces(without_conversion_type[0]),
+                        escape_braces(without_conversion_type[0]))
         raise UIError(msg, err)
 
     def as_str_list(self, persisted_run_id: int):
